@@ -34,6 +34,8 @@ Scenarios ==
   \cup { Sc("mulc", <<a>>, <<>>, <<s>>, <<>>) : a \in {0, 1, -2, 5}, s \in Scalars \cup {C.r, Add(C.r, One)} }
   \cup UNION { { Sc("msm", ps, ss, <<>>, <<>>) : ps \in MsmPts(n), ss \in MsmScal(n) } : n \in 1..MaxMsm }
   \cup { Sc("msm", <<a>>, <<s>>, <<>>, <<>>) : a \in {0, 1, -1, 3}, s \in Scalars }
+  \cup { Sc(o, <<a>>, <<ss[1], ss[2]>>, <<>>, <<>>) : o \in {"msm_negpair", "msm_dup"}, a \in {1, 3, -2},
+           ss \in {<<OfInt(5), OfInt(3)>>, <<One, One>>, <<Rnd(1), Rnd(2)>>, <<Sub(C.r, One), OfInt(2)>>} }
   \* bounded scalars: all short with increasing bounds, mixed with full-size ones, bound exactly met
   \cup { Sc("msm_bounded", ps, ss, <<>>, bs) :
            ps \in {<<1, 2>>, <<3, -3>>},
